@@ -8,7 +8,7 @@
    decimals, unitQ e = 10^-e (one unit of the e-th decimal; unitQ c is one minor currency unit). *)
 From Coq Require Import ZArith QArith Qabs List Bool.
 From Verif Require Import Base.Rha Num.Amount Num.AmountProofs Calc.Doc Calc.Calc Calc.BoundProofs
-  Calc.Ideal Calc.IdealProofs Calc.IdealBoundProofs.
+  Calc.Ideal Calc.IdealProofs Calc.IdealClass Calc.IdealBoundProofs.
 Import ListNotations.
 Open Scope Q_scope.
 
@@ -208,6 +208,30 @@ Theorem precise_error_bound d t : simple_doc d -> b_due d < 100 -> calculate d =
 Proof. exact (IdealBoundProofs.precise_error_bound d t). Qed.
 Print Assumptions precise_error_bound.
 
+(* the class is decidable: simple_docb (Calc/IdealClass.v) is the boolean the check evaluates, by
+   extraction, on every generated document, together with budget d = ceiling (b_due d); inside
+   (simple_docb d = true, budget d < 100, 'precise') the check requires every presented total of
+   the Go implementation to be less than one minor unit from `exact d` *)
+Theorem simple_docb_sound d : simple_docb d = true -> simple_doc d.
+Proof. exact (IdealBoundProofs.simple_docb_sound d). Qed.
+Print Assumptions simple_docb_sound.
+
+Theorem precise_error_bound_decidable d t :
+  simple_docb d = true -> (budget d < 100)%Z -> calculate d = Totals t ->
+  exists y, exact d = Some y /\
+    let u := unitQ (d_c d) in
+    Qabs (toQ (t_sum t) - i_sum y) < u /\
+    Qabs (toQ (t_total t) - i_total y) < u /\
+    Qabs (toQ (t_tax t) - i_tax y) < u /\
+    Qabs (toQ (t_twt t) - i_twt y) < u /\
+    Qabs (toQ (t_payable t) - i_payable y) < u /\
+    obound (fun e => e < u) (t_discount t) (i_discount y) /\
+    obound (fun e => e < u) (t_charge t) (i_charge y) /\
+    obound (fun e => e < u) (t_advances t) (i_advances y) /\
+    obound (fun e => e < u) (t_due t) (i_due y).
+Proof. exact (IdealBoundProofs.precise_error_bound_decidable d t). Qed.
+Print Assumptions precise_error_bound_decidable.
+
 (* the underlying statement about the specification alone: with and without rounding *)
 Theorem ideal_close_to_exact d x : simple_doc d -> ideal d = Some x ->
   exists y, exact d = Some y /\
@@ -251,6 +275,14 @@ Proof.
   - eexists. eexists. split; [vm_compute; reflexivity|]. split; [vm_compute; reflexivity|].
     repeat split.
 Qed.
+
+Example precise_error_bound_decidable_applies :
+  simple_docb c01_simple_doc = true /\ (budget c01_simple_doc < 100)%Z /\
+  uses_conversion c01_simple_doc = false /\ uses_breakdown c01_simple_doc = false /\
+  simple_docb w_exchange = false /\ uses_conversion w_exchange = true /\
+  simple_docb w_breakdown = false /\ uses_breakdown w_breakdown = true.
+Proof. vm_compute. repeat split. Qed.
+
 
 (* the earlier result for PLAIN documents (no discounts, charges, taxes), kept because its size
    limit is slightly better there (99 lines instead of 93): *)
